@@ -55,7 +55,8 @@ class Obj:
 class GeometryScenario(BaseScenario):
     prop = "C07"
 
-    def __init__(self):
+    def __init__(self, prop="C07"):
+        self.prop = prop      # C01: the same histories judged for memory / file equivalence (geometry and values, after every operation)
         self.expected_probes = ["rm_vertices_unused_only", "rm_vertices_repeated_index", "rm_vertices_unsorted", "rm_cells", "rm_all_but_one", "masked_copy",
                                 "short_padded", "long_refused", "bad_index_refused", "reopen", "text_data_follows"]
         self.rule = ("one evaluation = one seeded history on 1-2 point / curve / surface objects (meshes with vertices used by no cell, repeated and unsorted index "
@@ -199,6 +200,20 @@ class GeometryScenario(BaseScenario):
                 sim.probe("text_data_follows")
         del ent
 
+    def memory_vs_file(self, sim, ws, w, where):
+        """C01: what the objects and their data report equals what the file holds now (independent reader on the open handle)."""
+        sim.oracle("memory_vs_file")
+        stored = {k: compare.normalise_raw(v) for k, v in rawgeoh5.decode_tree(rawgeoh5.read(ws.geoh5)).items()}
+        for obj in w["objs"]:
+            ent = self.ent(ws, obj)
+            live = snapshot.subtree(ws, ent)
+            del ent
+            have = {u: stored[u] for u in live if u in stored}
+            diffs = compare.diff_trees(live, have, "LIVE", "RAW", fields=("arrays", "values", "children"))
+            if diffs:
+                field = diffs[0].split(" ")[1].rstrip(":") if len(diffs[0].split(" ")) > 1 else "?"
+                raise Violation("C01", "state_differs", f"{where}: {diffs[0]}", {"field": field, "kind": "object", "cls": obj.cls, "view": "RAW"})
+
     # ------------------------------------------------------------------------------------------
     def execute(self, seed, program=None):
         from geoh5py import Workspace
@@ -255,6 +270,8 @@ class GeometryScenario(BaseScenario):
                     sim.record("op", op["id"], kind, obj.cls, outcome, [len(o.vtags) for o in w["objs"]])
                     for o in w["objs"]:
                         self.check(sim, ws, o, f"{kind}:after", failed=(outcome.split(":")[1] if outcome.startswith("raised") and o is obj else None))
+                    if self.prop == "C01" and not outcome.startswith("raised"):
+                        self.memory_vs_file(sim, ws, w, f"{kind}:after")
                     if sim.gc_mode == "op" and random.Random(H(op["sub"], "gcop")).random() < sim.gc_density:
                         sim.collect("op")
                 ws.close()
